@@ -8,6 +8,7 @@ From Coq Require Import List Arith Bool.
 From Feox Require Import Model.InFlight Proofs.InFlightProofs.
 From Coq Require Import NArith.
 From Feox Require Model.AlignedBuf Proofs.AlignedBufProofs.
+From Feox Require Gen.AllocSites Proofs.AllocProofs.
 Import ListNotations.
 
 Theorem inflight_invariant_reachable :
@@ -71,12 +72,47 @@ Check aligned_buffer_slices_stay_inside_the_allocation :
 Print Assumptions aligned_buffer_slices_stay_inside_the_allocation.
 
 Theorem oversized_set_len_is_refused :
-  forall b n, (AlignedBuf.ab_cap b < n)%N -> AlignedBuf.ab_step b (AlignedBuf.ASetLen n) = (b, AlignedBuf.APanic).
+  forall b n, (AlignedBuf.ab_cap b < n)%N -> AlignedBuf.ab_step b (AlignedBuf.ASetLen n) = (b, AlignedBuf.APanic)
+
+(* FeoxAllocator (public): Gen/AllocSites.v is regenerated from src/utils/allocator.rs on every run.
+   For every size a block is released by the path that produced it (Layout path or mmap path),
+   with the Layout alignment it was allocated with and exactly the length that was mapped; the
+   mapping covers the request, consists of whole pages and wastes less than one page.  (usize
+   overflow of size + PAGE_MASK is outside: such a request cannot be mapped.) *).
 Proof. exact AlignedBufProofs.oversized_set_len_is_refused. Qed.
 Check oversized_set_len_is_refused :
-  forall b n, (AlignedBuf.ab_cap b < n)%N -> AlignedBuf.ab_step b (AlignedBuf.ASetLen n) = (b, AlignedBuf.APanic).
+  forall b n, (AlignedBuf.ab_cap b < n)%N -> AlignedBuf.ab_step b (AlignedBuf.ASetLen n) = (b, AlignedBuf.APanic)
+
+(* FeoxAllocator (public): Gen/AllocSites.v is regenerated from src/utils/allocator.rs on every run.
+   For every size a block is released by the path that produced it (Layout path or mmap path),
+   with the Layout alignment it was allocated with and exactly the length that was mapped; the
+   mapping covers the request, consists of whole pages and wastes less than one page.  (usize
+   overflow of size + PAGE_MASK is outside: such a request cannot be mapped.) *).
 Print Assumptions oversized_set_len_is_refused.
+
+Theorem allocator_releases_exactly_what_it_allocated :
+  forall size : N,
+    AllocSites.alloc_small size = AllocSites.dealloc_small size /\
+    AllocSites.alloc_small_align = AllocSites.dealloc_small_align /\
+    AllocSites.dealloc_large_len size = AllocSites.alloc_large_len size /\
+    (size <= AllocSites.alloc_large_len size)%N /\
+    (AllocSites.alloc_large_len size < size + AllocSites.A_PAGE_SIZE)%N /\
+    (AllocSites.alloc_large_len size mod AllocSites.A_PAGE_SIZE = 0)%N.
+Proof. exact AllocProofs.release_matches_allocation. Qed.
+Check allocator_releases_exactly_what_it_allocated :
+  forall size : N,
+    AllocSites.alloc_small size = AllocSites.dealloc_small size /\
+    AllocSites.alloc_small_align = AllocSites.dealloc_small_align /\
+    AllocSites.dealloc_large_len size = AllocSites.alloc_large_len size /\
+    (size <= AllocSites.alloc_large_len size)%N /\
+    (AllocSites.alloc_large_len size < size + AllocSites.A_PAGE_SIZE)%N /\
+    (AllocSites.alloc_large_len size mod AllocSites.A_PAGE_SIZE = 0)%N.
+Print Assumptions allocator_releases_exactly_what_it_allocated.
 Example abandoned_submission_is_kept_alive :
   let s := ifrun ifinit [Push; Push; MarkInFlight 0; SqPushOk 0; MarkInFlight 1; SqPushOk 1; Complete 1; DropAll] in
   bufs s = [Leaked; Freed] /\ kern s = [true; false].
 Proof. vm_compute. split; reflexivity. Qed.
+Example allocator_classes :
+  AllocSites.alloc_small 8192 = true /\ AllocSites.alloc_small 8193 = false /\
+  AllocSites.alloc_large_len 8193 = 12288%N /\ AllocSites.alloc_large_len 65536 = 65536%N.
+Proof. vm_compute. repeat split; reflexivity. Qed.
